@@ -212,8 +212,13 @@ def run_C15(ctx):
     decide(ctx, b, "TraceDir", DIR_INVS["C15"], t)
 
 
+PATH_PART = {"C05": (["match"], ["Inv_NoPanic", "Inv_C05_Path"]),
+             "C06": (["preload"], ["Inv_NoPanic", "Inv_C06_PathPreload"]),
+             "C20": (["match"], ["Inv_NoPanic", "Inv_C20_PathOrder"])}
+
+
 def run_mixed(pid, file_gens, dir_gens):
-    """Properties decided on both the file and the directory family."""
+    """Properties decided on the file family, the directory family and (path part) on path traversals."""
     def run(ctx):
         b = vlib.build_harness()
         q = ctx.quick
@@ -229,6 +234,10 @@ def run_mixed(pid, file_gens, dir_gens):
         ctx.exhaustive = True
         decide(ctx, b, "TraceFile", FILE_INVS[pid], ft)
         decide(ctx, b, "TraceDir", DIR_INVS[pid], dt)
+        if pid in PATH_PART:
+            targets, invs = PATH_PART[pid]
+            pt = [path_traces(ctx, b, targets, ["FALSE"], True, 4 if q else 1)]
+            decide(ctx, b, "TracePath", invs, pt)
     return run
 
 
@@ -409,6 +418,32 @@ def run_C19(ctx):
     decide(ctx, b, "TraceFixture", ["Inv_NoPanic", "Inv_Harness_Walk", "Inv_C19_Same", "Inv_C19_Siblings", "Inv_C19_Paths"], t)
 
 
+# ----------------------------------------------------------------------------
+# path selectors
+
+PATH_CFG = ("SPECIFICATION Spec\nCONSTANTS\n  Targets = {%s}\n  MPs = {%s}\nINVARIANTS Inv_C03_ExpShape%s\nCHECK_DEADLOCK FALSE\n")
+
+
+def path_traces(ctx, b, targets, mps, passive, sample):
+    cfg = PATH_CFG % (", ".join('"%s"' % t for t in targets), ", ".join(mps), " Export")
+    r = vlib.model_check(ctx, "PathSel", cfg, name="PathSel_" + "_".join(targets) + ("_p" if passive else ""), want_cases=True, workers=1)
+    cases = r["cases"]
+    ctx.extra["tlc_path_cases_exported"] = ctx.extra.get("tlc_path_cases_exported", 0) + len(cases)
+    if sample > 1:
+        cases = cases[ctx.seed % sample::sample]
+    cf_ = ctx.path("path_cases_%d.jsonl" % len(ctx.mc_runs))
+    open(cf_, "w").write("\n".join(cases) + "\n")
+    return gen(ctx, b, "path_%d" % len(ctx.mc_runs), ["path-replay", "-cases", cf_] + (["-passive"] if passive else []))
+
+
+def run_C03(ctx):
+    b = vlib.build_harness()
+    q = ctx.quick
+    t = [path_traces(ctx, b, ["match", "preload", "entity", "exploreall"], ["FALSE", "TRUE"], False, 8 if q else 1)]
+    ctx.exhaustive = not q
+    decide(ctx, b, "TracePath", ["Inv_NoPanic", "Inv_C03_Target", "Inv_C03_NothingElse", "Inv_C03_PathNodes", "Inv_C03_NoMP"], t)
+
+
 def finish(ctx, plan):
     vlib.write_evidence(ctx, LEVEL, plan["rule"], ASSUME_COMMON + plan.get("assume", []))
 
@@ -504,7 +539,23 @@ TECH_FIX = ("explicit TLA+ spec (FixtureOps/Fixture): described-tree predicates 
 NOTE_IO = ("trusted: TLC, the independent walkers (boxo merkledag + gogo unixfs_pb), the OS filesystem calls of the harness; contents "
            "are compared by digest / byte equality in Go")
 
+TECH_PATH = ("explicit TLA+ spec (PathOps/PathSel): trees, path resolution and the expected match sequence; TLC enumerates every "
+             "(tree, path incl. perturbed paths, target selector, matchPath) combination; each is built for real, the selector from "
+             "UnixFSPathSelectorBuilder/UnixFSPathSelector is compiled and run with traversal.WalkMatching; the visitor's record is "
+             "validated by TLC against TracePath.tla")
+
 PLANS = {
+    "C03": P(run_C03, "TLC enumerates 60,768 combinations: 1,226 trees (plain or sharded root, up to two entries named 'a' / '.', entries "
+             "that are single- or multi-block files, symlinks, plain or sharded directories with an entry named 'b' / '..'), every "
+             "path of the tree plus perturbed ones, four target selectors, matchPath on/off; each (thorough: all, quick: 1/8) is "
+             "built with the real builders, walked with the real selector (five path-string presentations incl. redundant slashes, "
+             "two name tables incl. unicode/space/percent names), and TLC validates: the target is matched exactly once and last "
+             "with the file's exact bytes / the directory's entry names, nothing else is matched, absent paths match nothing, and "
+             "with matchPath the path nodes are matched once in order (Inv_C03_*). The matchPath defect F7 is a known finding.",
+             rule="a case is (tree, segments, target selector, matchPath, path-string presentation, name table) exported by TLC from "
+                  "PathSel; non-trivial = non-empty path or non-empty root; distinct = case ids",
+             technique=TECH_PATH, note=NOTE_DIR + "; path *string* parsing is not modelled (TLC strings are atomic): presentations are "
+             "expanded by the harness"),
     "C18": P(run_C18, "TLC checks on Import that the importer finishes nodes children-first, returns a link only after the whole tree and "
              "an error exactly when the tree contains a non-regular file; 281 enumerated on-disk trees (every root with <= 2 "
              "children drawn from 8 leaf kinds and one-child directories), seeded random trees and directories of 1336..1339 "
